@@ -28,11 +28,11 @@ theorem Inv.raise_at {s : St} {top : Nat → Nat} (inv : Inv s top) (A v : Nat) 
     intro h hw
     cases h with
     | ptr m => exact hw
-    | list sl => exact ⟨hw.1, hw.2.1, Nat.le_trans hw.2.2 (hge _)⟩
+    | list sl => exact ⟨hw.1, hw.2.1, Nat.le_trans hw.2.2.1 (hge _), hw.2.2.2⟩
     | _ => trivial
   have hlist : ∀ {sl : Slice}, HWF s top (Handle.list sl) → sl.arr ≠ A := by
     intro sl hw heq
-    have h1 := hw.2.1; have h2 := hw.2.2
+    have h1 := hw.2.1; have h2 := hw.2.2.1
     rw [heq, hfree] at h2; omega
   refine ⟨?_, inv.cellok, fun e he => hmono (inv.pool e he), fun kv hkv => ⟨hmono (inv.memo kv hkv).1, (inv.memo kv hkv).2⟩,
     ?_, ?_, inv.uniq, ?_⟩
@@ -101,8 +101,8 @@ theorem doAppend_list (grow : Nat → Nat) (s : St) (i j : Nat) (sl : Slice) (h2
 theorem clip_hwf {s : St} {top : Nat → Nat} {h : Handle} (hw : HWF s top h) : HWF s top h.clip ∧ Sealed h.clip := by
   cases h with
   | list sl =>
-    obtain ⟨w, pos, ht⟩ := hw
-    refine ⟨⟨⟨Nat.le_refl _, ?_⟩, pos, ht⟩, rfl⟩
+    obtain ⟨w, pos, ht, nn⟩ := hw
+    refine ⟨⟨⟨Nat.le_refl _, ?_⟩, pos, ht, nn⟩, rfl⟩
     rcases w.2 with h0 | ⟨h1, h2⟩
     · exact Or.inl (by show sl.len = 0; have := w.1; omega)
     · exact Or.inr ⟨h1, by show sl.len ≤ (cells s.arrs sl.arr).length; have := w.1; omega⟩
